@@ -48,10 +48,10 @@ NB_PEG = [(t[0], t[1], t[2], 'Q') for t in NB_PEG] + [(t[0], t[1], t[2] + ' — 
 NB_PEG_STACK = [t for t in NB_PEG if t[1] in ('nb_peg_push_pop', 'nb_peg_pred', 'nb_peg_rep_choice', 'nb_peg_slice', 'nb_peg_bal', 'nb_peg_optpush', 'nb_peg_reppush', 'nb_peg_repbal', 'nb_peg_predmut', 'nb_peg_repminfail', 'nb_peg_repmmfail', 'nb_peg_repnoprogress', 'nb_peg_repnullable')]
 NB_SLICES = ('nb_slices', 'nb_slices', 'all stacks of depth<=4 over {a,bb} x all PEEK[a..b], PEEK[a..] with a,b in -6..=6 x all inputs<=5 chars', 'q')
 NB_PEG_D1 = ('nb_peg', 'nb_peg_d1', 'PUSH(a) ~ ((POP? ~ b) | PEEK); all strings<=6 chars over {a,b}', 'q')
-NB_GEN = ('derive:nb_gen', 'nb_gen_vs_pest', 'generated parser vs pest: 32 rules (all kinds/operators, built-ins, stack slices) x all strings<=5 chars over 3 alphabets', 'Q')
-NB_GEN_T = ('derive:nb_gen', 'nb_gen_vs_pest', 'generated parser vs pest: 32 rules x all strings<=7 chars over 3 alphabets', 't', {'VERIF_NB_L': '7'})
+NB_GEN = ('derive:nb_gen', 'nb_gen_vs_pest', 'generated parser vs pest: 36 rules (all kinds/operators, built-ins, stack slices) x all strings<=5 chars over 3 alphabets', 'Q')
+NB_GEN_T = ('derive:nb_gen', 'nb_gen_vs_pest', 'generated parser vs pest: 36 rules x all strings<=7 chars over 3 alphabets', 't', {'VERIF_NB_L': '7'})
 NB_GEN_SUB_REL = ('derive:nb_gen', 'nb_gen_subinput@release', 'RELEASE profile (debug assertions off, unchecked slicing): 15 rules x all strings<=4 chars x all sub-ranges', 'q', {'VERIF_PROFILE': 'release'})
-NB_GEN_REL = ('derive:nb_gen', 'nb_gen_vs_pest@release', 'RELEASE profile: 32 rules x all strings<=5 chars over 3 alphabets', 'q', {'VERIF_PROFILE': 'release'})
+NB_GEN_REL = ('derive:nb_gen', 'nb_gen_vs_pest@release', 'RELEASE profile: 36 rules x all strings<=5 chars over 3 alphabets', 'q', {'VERIF_PROFILE': 'release'})
 NB_INPUT_REL = ('nb_input', 'nb_skip_contract@release', 'RELEASE profile: skip / Position::next on all strings<=4 chars x all spans', 'q', {'VERIF_PROFILE': 'release'})
 NB_GEN_SKIPTOK = ('derive:nb_gen', 'nb_gen_skip_tokens', 'generated parser vs pest, grammar with NON-silent WHITESPACE/COMMENT: 5 rules x all strings<=6 tokens over 2 alphabets', 'q')
 NB_GEN_SKIP_ONLY = ('derive:nb_gen', 'nb_gen_skip_only', 'generated parser vs pest, grammars defining ONLY a non-silent WHITESPACE / ONLY a non-silent COMMENT (own generator arms): 4 rules each x all strings<=7 chars over {a,b,comma,blank}', 'q')
@@ -86,11 +86,11 @@ PROPS = {
     },
     'C02': {
         'level': 'other',
-        'level_text': 'Bounded stand-in only. The pair-tree code (for_self_or_each_child, children, as_token) is callback style (FnMut closures pushing into captured Vecs), which Verus does not support, and CBMC on Vec-of-Vec token trees is intractable; no contract is discharged. The contract "as_thin_token() equals the pest tree minus descendants of atomic/compound-atomic tokens" is checked by bounded differential enumeration against pest itself on a generated parser covering every rule kind and operator.',
+        'level_text': 'Decided by a bounded stand-in. The pair-tree code (for_self_or_each_child, children, as_token) is callback style (FnMut closures pushing into captured Vecs), which Verus does not support, and CBMC on Vec-of-Vec token trees is intractable; no contract on the token stream is discharged. What Verus does prove, as the half of the property that contracts reach, is which nodes a composite node HOLDS after a successful parse (node_ok of Option: Some exactly when the inner expression matched; Choice2..12: the first matching alternative; Seq2..12 fields; repetition units) — the tokens are read off those nodes. The contract "as_thin_token() equals the pest tree minus descendants of atomic/compound-atomic tokens" is checked by bounded differential enumeration against pest itself on a generated parser covering every rule kind and operator.',
         'level_note': 'pest (pest_derive 2.7.14) on the same grammar is the oracle, as the property states. One grammar of 22 rules; nothing beyond the bound or other grammars.',
         'technique': 'contract (tree equals pest tree minus documented pruning) checked by bounded differential enumeration on generated parsers; no deductive proof within reach (FnMut callback style)',
-        'verus': [],
-        'expanded': False,
+        'verus': ['comb', 'choice', 'seqpar', 'reppar'],
+        'expanded': True,
         'kani': [],
         'native': [NB_GEN, NB_GEN_T, NB_GEN_SKIPTOK, NB_GEN_SKIP_ONLY, NB_GEN_COMMENT_INNER],
         'explanation': 'Every (rule, input) pair within the bound is parsed by the pest-generated and the pest-typed-generated parser; trees are compared after pruning atomic tokens in the pest tree. obligations/discharged are zero: nothing is proved beyond the bound.',
@@ -274,7 +274,7 @@ PROPS = {
         'level_text': 'First-match-wins and leaf contents are Verus postconditions for all inputs and child types: the variant a Choice2..12 parse builds is the first alternative whose denotation matches (node_ok), CharRange/ANY expose the first scalar of the remaining input, Insens the consumed spelling, NEWLINE the alternative consumed (CRLF preferred), PEEK/POP/Skip/SkipChar the consumed span. Accessors are loop-free and proved complete by Kani over full-domain payloads for every arity 2..16 (13..16 instantiated with the exported choices!/seq! macros): exactly one _k() is Some and it is the stored value; the if_then/else_if/else_then, reference and consume chains run exactly closure k; get_matched/as_ref/get_all/into_matched/into_all return the fields in grammar order. Sequence and repetition contents are Verus postconditions too (node_ok of Seq2..12: field k holds the node element k built where it matched; of RepeatMin/RepeatMinMax/AtomicRepeat: exactly the matched units, in order, each built where it matched). Repetition iterators (iter_matched etc.) are a bounded stand-in; match_choices! is a generator proc macro (n/a).',
         'level_note': NOTE_COMMON + 'Payload parametricity: accessor bodies never inspect the payload (checked with u8 payloads). match_choices! not covered.',
         'technique': TECH,
-        'verus': ['choice', 'leaf', 'nodes', 'seqpar', 'reppar'],
+        'verus': ['comb', 'choice', 'leaf', 'nodes', 'seqpar', 'reppar'],
         'expanded': True,
         'kani': [
             ('k_acc', 'acc_choice2', 'complete', 'q', 'choice accessors and helper chains, arity 2, all alternative indices x all u8 payloads (loop-free)'),
